@@ -232,14 +232,16 @@ class Message:
     def should_close(self):
         if self.must_close:
             return True
+        # Connection is a comma-separated list of tokens, possibly spread
+        # over several field lines
+        tokens = []
         for (h, v) in self.headers:
             if h == "CONNECTION":
-                v = v.lower().strip(" \t")
-                if v == "close":
-                    return True
-                elif v == "keep-alive":
-                    return False
-                break
+                tokens.extend(t.strip(" \t").lower() for t in v.split(","))
+        if "close" in tokens:
+            return True
+        if "keep-alive" in tokens:
+            return False
         return self.version <= (1, 0)
 
 
